@@ -37,6 +37,8 @@ fn h_ev(t: &mut Tracer, api: &str, w: usize, outl: usize, res: Option<Result<(us
 thread_local! {
     /// the caller gives up waiting for 100-continue at once (the 100, if any, arrives late)
     pub static GIVE_UP: std::cell::Cell<bool> = std::cell::Cell::new(false);
+    /// the caller reads chunk by chunk (stop_on_chunk_boundary)
+    pub static STOP_AT_CHUNKS: std::cell::Cell<bool> = std::cell::Cell::new(false);
 }
 
 /// Drive a whole exchange against an arbitrary server byte stream delivered in the given pieces.
@@ -178,8 +180,11 @@ pub fn drive_hostile(t: &mut Tracer, rq: RqCfg, stream: &[u8], arrivals: &[usize
                 if failed || ready || (all && idle >= 2) || (got && all && pos >= stream.len()) {
                     // advancing after whatever the server sent must not panic
                     fb = match guarded(|| f.proceed()) {
-                        Some(Some(ureq_proto::client::flow::RecvResponseResult::RecvBody(x))) => {
+                        Some(Some(ureq_proto::client::flow::RecvResponseResult::RecvBody(mut x))) => {
                             adv(t, "proceed", "RecvBody");
+                            if STOP_AT_CHUNKS.with(|g| g.get()) {
+                                x.stop_on_chunk_boundary(true);
+                            }
                             FlowBox::RecvBody(x)
                         }
                         Some(Some(ureq_proto::client::flow::RecvResponseResult::Redirect(x))) => {
@@ -490,13 +495,22 @@ pub fn c12(o: &Opts, t: &mut Tracer) -> Value {
                     1 if stream.len() < 400 => vec![1; stream.len()],
                     _ => (0..rng.gen_range(1..8)).map(|_| rng.gen_range(1..(stream.len() / 2 + 3))).collect(),
                 };
-                let outs: Vec<usize> = (0..3).map(|_| [0usize, 1, 2, 7, 64, 100000][rng.gen_range(0..6)]).collect();
+                // (3 and 10 are the chunk sizes of the chunked base exchange: buffers that a chunk fills exactly)
+                let outs: Vec<usize> = (0..3).map(|_| [0usize, 1, 2, 7, 64, 100000, 3, 10][rng.gen_range(0..8)]).collect();
                 let outs = if outs.iter().all(|&x| x == 0) { vec![0, 9] } else { outs };
                 // also try the exchange against other request configurations
                 let tag2 = if rep >= 2 { ["get", "head", "post-expect", "connect", "post10-close-expect", "put-cl", "post-expect-giveup", "get10-close"][rng.gen_range(0..8)] } else { tag };
                 GIVE_UP.with(|g| g.set(tag2 == "post-expect-giveup"));
+                STOP_AT_CHUNKS.with(|g| g.set(rep % 2 == 1));
                 drive_hostile(t, rq_for(tag2), &stream, &arrivals, &outs);
+                if rep == 1 && stream.len() < 400 && f["segs"].to_string().contains("\"size\"") {
+                    // chunked streams once more byte by byte with buffers that each chunk fills exactly
+                    t.case(json!({"ev":"case","comp":"hostile","note":"fault","op":f["op"],"site":f["site"],"req":tag,"len":stream.len(),"rep":"exact-fit"}));
+                    drive_hostile(t, rq_for(tag2), &stream, &arrivals, &[3, 10, 3, 10, 1]);
+                    drive_hostile(t, rq_for(tag2), &stream, &arrivals, &[10, 3]);
+                }
                 GIVE_UP.with(|g| g.set(false));
+                STOP_AT_CHUNKS.with(|g| g.set(false));
             }
         }
     }
